@@ -40,6 +40,14 @@ class _Raise(Exception):
         self.value = value
 
 
+class _Continue(Exception):
+    pass
+
+
+class _Break(Exception):
+    pass
+
+
 class BoolConst:
     """Python's True/False as graph constants. Not `bool`, because True == 1 and False == 0 would make
     ("const", False) and ("const", 0) the same dictionary key."""
@@ -167,6 +175,7 @@ class Builder:
         self.construct_inline = construct_inline
         self.ntype: dict = {}
         self.decisions: dict = {}
+        self.lowered_idioms: set = set()
         self.trace: list = []
         self.effects: list = []
         self.asserts: list = []
@@ -308,6 +317,10 @@ class Builder:
             raise _Raise(self.ev(s.exc, env, ctx) if s.exc is not None else NONE)
         elif isinstance(s, ast.Pass):
             pass
+        elif isinstance(s, ast.Continue):
+            raise _Continue()
+        elif isinstance(s, ast.Break):
+            raise _Break()
         elif isinstance(s, (ast.Import, ast.ImportFrom)):
             self.local_import(s, env, ctx)
         elif isinstance(s, ast.For):
@@ -353,10 +366,18 @@ class Builder:
         it = self.ev(s.iter, env, ctx)
         elems = self.static_elems(it)
         if elems is not None and len(elems) <= 128:
+            broke = False
             for e in elems:
                 self.bind(s.target, e, env, ctx)
-                self.run(s.body, env, ctx)
-            self.run(s.orelse, env, ctx)
+                try:
+                    self.run(s.body, env, ctx)
+                except _Continue:
+                    continue
+                except _Break:
+                    broke = True
+                    break
+            if not broke:
+                self.run(s.orelse, env, ctx)
             return
         # opaque loop: evaluate the body once with symbolic loop variable / carries
         assigned = sorted(_assigned_names(s.body))
@@ -372,6 +393,8 @@ class Builder:
         save_eff = len(self.effects)
         try:
             self.run(s.body, sub, ctx)
+        except (_Continue, _Break):
+            raise Unsupported(f"continue/break in a loop over a non-static iterable at line {s.lineno}") from None
         finally:
             self.bound_depth -= 1
         body_effects = tuple(e[1] for e in self.effects[save_eff:])
@@ -940,6 +963,8 @@ class Builder:
             k = f[0]
             if k == "global":
                 q = f[1]
+                if q.startswith("lerax.") and (q in COND or q in SCAN):
+                    self.lowered_idioms.add(q)
                 if q in COND and len(args) >= 3:
                     ops = args[3:]
                     okw = tuple((a, b) for a, b in kwargs)
